@@ -190,15 +190,15 @@ def run(ctx):
         plan = [
             ("small22", ["c05-small", "letters=2", "rules=2", "maxlen=3"]),
             ("random", ["c05-random", f"seed={seed}", "n=1500", "words=10"]),
-            ("corpus", ["c05-corpus", f"dir={corpus_dir()}", f"seed={seed}", "pairs=40", "walks=40", "batch=20"]),
+            ("corpus", ["c05-corpus", f"dir={corpus_dir()}", f"seed={seed}", "pairs=30", "walks=30", "batch=60"]),
             ("redirect", ["c05-redirect", f"seed={seed}", "n=120"]),
         ]
     else:
         plan = [
             ("small22", ["c05-small", "letters=2", "rules=2", "maxlen=4"]),
-            ("small32", ["c05-small", "letters=3", "rules=2", "maxlen=3", "stride=8", f"offset={seed % 8}"]),
-            ("small23", ["c05-small", "letters=2", "rules=3", "maxlen=3", "stride=16", f"offset={seed % 16}"]),
-            ("random", ["c05-random", f"seed={seed}", "n=20000", "words=12"]),
+            ("small32", ["c05-small", "letters=3", "rules=2", "maxlen=3", "stride=12", f"offset={seed % 12}"]),
+            ("small23", ["c05-small", "letters=2", "rules=3", "maxlen=3", "stride=24", f"offset={seed % 24}"]),
+            ("random", ["c05-random", f"seed={seed}", "n=12000", "words=12"]),
             ("corpus", ["c05-corpus", f"dir={corpus_dir()}", f"seed={seed}", "pairs=500", "walks=500", "batch=100"]),
             ("redirect", ["c05-redirect", f"seed={seed}", "n=1500"]),
         ]
@@ -232,7 +232,7 @@ def run(ctx):
         jobs.append((f"neg:{b}", neg("MC_LigKern", f"NEG_LigKern_{b}.cfg", b)))
     for b in NEGS_COMPILE:
         jobs.append((f"neg:{b}", neg("LigKernCompile", f"NEG_LigKernCompile_{b}.cfg", b)))
-    per_chunk = ({"small": 900, "random": 160, "corpus": 90, "redirect": 200} if q else
+    per_chunk = ({"small": 1300, "random": 260, "corpus": 13, "redirect": 200} if q else
                  {"small": 2500, "random": 1500, "corpus": 40, "redirect": 800})
     for b in batches:
         size = per_chunk[re.sub(r"\d+$", "", b.name)]
@@ -266,9 +266,10 @@ def run(ctx):
         "a run on which TeX's main loop never terminates (the cursor reaches a pair with undefined f) has no reference "
         "output: skipped and counted (runs_skipped_reference_diverges); programs with loops are still run on all "
         "other words",
-        "corpus: the .tfm/.plst files of corpus/computer-modern and corpus/ctan that load without any warning and "
-        "pass validate_and_fix silently (fonts TeX itself would load); fuzz/ and originals/ hold deliberately broken "
-        "files and are left to C10",
+        "corpus: every .tfm/.plst file under crates/tfm/corpus (computer-modern, ctan, originals, fuzz) that loads "
+        "without any deserialisation/parse warning and whose validate_and_fix warnings are at most infinite-loop "
+        "warnings, i.e. the fonts TeX itself would load (TeX does not look for loops); the other files are "
+        "deliberately broken inputs and belong to C10",
         "instructions with skip_byte > 128 reachable through a chain are exercised only by the separate `redirect` "
         "driver (known finding " + FINDING_PHANTOM + ")",
         "the identity of the reported starting pair among several looping pairs (Knuth's traversal order) is not "
